@@ -667,14 +667,19 @@ def rules(repo=None):
 
 
 EXPLANATION = (
-    "R1: the three mutating calls of ringbuffer.py act on rec.path of a record popped from self.records / its directory; records "
-    "are built only in _get_file_record after a regex match with a secs group; the handler is built with properties excluded and "
-    "its regexes accept no properties path. R2: for each SizeExpirer override that adjusts active_size around a super() call, "
-    "either the base method mutates on every normal-return path or it returns a flag that is truthy exactly on the mutating "
-    "paths and the override branches on it; overwriting a tracked record goes through _modify_record. R3: constant queue "
-    "subscripts are [0]; queue and record-table mutators appear only in their owner methods. R4: _add_record reaches _expire on "
-    "every path; every mixin override delegates to super() on every path; _expire is a while loop; mixins precede the base in "
-    "the composed class. R1 also: the handler's regexes accept no tmp. file name under any directory names. R5: every increase of active_size is followed by the limit enforcement hook, in the hook itself or in every caller. Does NOT decide that the deque insertion keeps time order.")
+    'R1: the three mutating calls of ringbuffer.py act on rec.path of a record popped from self.records / its directory; '
+    'records are built only in _get_file_record after a regex match with a secs group; the handler is built with '
+    'properties excluded and its regexes accept no properties path. R2: for each SizeExpirer override that adjusts '
+    'active_size around a super() call, either the base method mutates on every normal-return path or it returns a flag '
+    'that is truthy exactly on the mutating paths and the override branches on it; overwriting a tracked record goes '
+    'through _modify_record. R3: constant queue subscripts are [0]; queue and record-table mutators appear only in their '
+    'owner methods. R4: _add_record reaches _expire on every path; every mixin override delegates to super() on every '
+    "path; _expire is a while loop; mixins precede the base in the composed class. R1 also: the handler's regexes accept "
+    'no tmp. file name under any directory names. R5: every increase of active_size is followed by the limit enforcement '
+    'hook, in the hook itself or in every caller. R6: every ilsdrf listing with a time window whose result reaches a '
+    'method of the event handler (flat views: a listing made in a helper is judged where it is used) is used only as the '
+    'iterable of a comprehension filtered by <handler>._match_path(path, True). Does NOT decide that the deque insertion '
+    'keeps time order.')
 TECHNIQUE = ('Python ast; path-sensitive product analysis of bookkeeping mutations vs returned flag; owner tables for queue/record mutators; MRO/`super()` delegation')
 ASSUMPTIONS = ["watchdog delivers events only for paths under the scheduled watch", "deque.remove raises when the element is absent"]
 FILES = [RB, "python/digital_rf/list_drf.py", "python/digital_rf/watchdog_drf.py"]
